@@ -50,6 +50,17 @@ def gen_cases(tier, seed):
         faults = rng.choice([None, None, 0.1, 0.25])
         cancel = None if rng.random() < 0.7 else [rng.choice("SD"), rng.randrange(1, 12)]
         cases.append({"cfg": cfg, "faults": faults, "cancel": cancel, "seed": seed * 1_000_003 + i, "prior": rng.choice([None, None, None, "completed", "cancelled"])})
+    # every single and double loss of a small acknowledged transfer (EOF or File Data as first PDU at the receiver, late Metadata, ...),
+    # all switches on
+    for size in (1, 5):
+        for imm in (True, False):
+            base = {"mode": "ack", "closure": False, "imm_nak": imm, "seg": 4, "size": size, "ind": [True, True, True, True], "msgs": None, "cks": "crc32",
+                    "ack_limit": 4, "nak_limit": 4}
+            n = 5 if size == 1 else 7
+            for a in range(n):
+                cases.append({"cfg": base, "faults": None, "cancel": None, "seed": 0, "drops": [a]})
+                for b in range(a + 1, n + 1):
+                    cases.append({"cfg": base, "faults": None, "cancel": None, "seed": 0, "drops": [a, b]})
     for mode in ("ack", "unack"):
         for off in (0, 4, 8):
             for sw2 in (True, False):
@@ -329,6 +340,11 @@ def run_case(case):
     with World(cfg) as w:
         mon = C01Monitor(w)
         plan = None
+        if case.get("drops"):
+            from ..world import EnumPlan
+
+            plan = EnumPlan({str(i): "drop" for i in case["drops"]})
+            obs["enumerated_loss_runs"] = 1
         if case["faults"]:
             sc = case["faults"]
             plan = RandomPlan(case["seed"], {"drop": 0.3 * sc, "dup": 0.2 * sc, "delay": 0.3 * sc, "late": 0.05 * sc})
@@ -394,4 +410,4 @@ def finalize(ctx):
 
 REQUIRED = {"indications_judged": 5000, "metadata_recv_checked": 500, "file_segment_recv_checked": 500, "eof_recv_checked": 300, "eof_sent_checked": 300,
             "finished_pdu_vs_indication_checked": 200, "messages_to_user_checked": 100, "originating_id_rule_checked": 100, "cancelled_runs": 100, "faulty_runs": 100,
-            "completion_indicated_S": 200, "completion_indicated_D": 200, "judged_on_reused_handlers": 200}
+            "completion_indicated_S": 200, "completion_indicated_D": 200, "judged_on_reused_handlers": 200, "enumerated_loss_runs": 50}
